@@ -28,6 +28,8 @@ pub struct Case {
     pub reuse_searcher: bool,
     /// explore crash prefixes
     pub crash: bool,
+    /// seeds the shuffled query order of a reused searcher
+    pub order_seed: u64,
 }
 
 pub fn decode(u: &mut Bytes) -> Case {
@@ -47,7 +49,7 @@ pub fn decode(u: &mut Bytes) -> Case {
     }
     let max_size = [100_000u64, 1, 120, 250, 400][u.choice(5)];
     let max_files = 1 + u.choice(4);
-    Case { near_midnight, phase_ms, seconds, max_size, max_files, reuse_searcher: u.choice(4) == 3, crash: u.choice(3) != 0 }
+    Case { near_midnight, phase_ms, seconds, max_size, max_files, reuse_searcher: u.choice(4) == 3, crash: u.choice(3) != 0, order_seed: u.tail_u8() as u64 * 256 + u.tail_u8() as u64 }
 }
 
 #[derive(Debug, Clone, PartialEq)]
@@ -241,8 +243,18 @@ fn extras_if_subsequence(got: &[Item], want: &[Item], written: &[Item]) -> Optio
 
 type Judged = Result<(), (String, String, String)>; // clause, key suffix, detail
 
-/// all queries against one directory state; `w` = items that must be found (complete & surviving), in write order
-fn judge_dir(dir: &str, w: &[Item], written: &[Item], crashed: bool, reuse: bool, files_with_data: usize, max_lines_cap: usize) -> (Judged, u64) {
+#[derive(Clone)]
+enum Query {
+    /// begin second, end second, resource, index of the begin in the list of begins
+    ByTime(u64, u64, &'static str, usize),
+    /// begin second, max lines, index of the begin
+    MaxLines(u64, usize, usize),
+}
+
+/// all queries against one directory state; `w` = items that must be found (complete & surviving), in write order.
+/// `reuse` = one searcher serves every query: then the whole list is asked three times - begins ascending, descending
+/// and in an order shuffled from `order_seed` - because what a reused searcher remembers depends on the order.
+fn judge_dir(dir: &str, w: &[Item], written: &[Item], crashed: bool, reuse: bool, files_with_data: usize, max_lines_cap: usize, order_seed: u64) -> (Judged, u64) {
     let mut queries = 0u64;
     let mk = || DefaultMetricSearcher::new(dir.to_string(), BASE.to_string());
     let shared = match mk() {
@@ -254,77 +266,104 @@ fn judge_dir(dir: &str, w: &[Item], written: &[Item], crashed: bool, reuse: bool
     if secs.is_empty() {
         secs.push(1_709_632_800);
     }
-    let first_file_last_sec = secs.first().cloned().unwrap_or(0);
-    let _ = first_file_last_sec;
     let mut begins: Vec<u64> = secs.clone();
     begins.insert(0, secs[0] - 1);
     let shape = if files_with_data >= 2 { "files>=2" } else { "single-file" };
+    let mut list: Vec<Query> = Vec::new();
     for (bi, b) in begins.iter().enumerate() {
         let mut ends: Vec<u64> = secs.iter().cloned().filter(|e| e >= b).collect();
         ends.push(secs[secs.len() - 1] + 5);
         for e in ends {
             for r in ["", "alpha", "beta_x", "gamma"] {
-                queries += 1;
-                let fresh;
-                let s = if reuse { &shared } else { fresh = mk().unwrap(); &fresh };
-                let got = match s.find_by_time_and_resource(b * 1000 + 250, e * 1000 + 750, r) {
-                    Ok(v) => v.iter().map(to_item).collect::<Vec<_>>(),
-                    Err(err) => {
-                        if crashed {
-                            continue; // an error is not a panic; the containment clause is judged on Ok results
-                        }
-                        return (Err(("search-failed".into(), format!("find_by_time|{}", shape), format!("find_by_time_and_resource({}, {}, {:?}) failed: {}", b, e, r, err))), queries);
-                    }
-                };
-                let want: Vec<Item> = w.iter().filter(|i| i.sec >= *b && i.sec <= e && (r.is_empty() || i.f.resource == r)).cloned().collect();
-                let begin_class = if bi == 0 { "begin-before-first" } else if bi == 1 { "begin-at-first-second" } else { "begin-at-later-second" };
-                let key = format!("find_by_time|{}|{}|{}", if reuse { "reused-searcher" } else { "fresh-searcher" }, shape, begin_class);
-                if !crashed {
-                    if got != want {
-                        return (Err(("by-time-result-wrong".into(), key, format!("find_by_time_and_resource(begin sec {}, end sec {}, {:?}) returned {} items, expected {} (written seconds {:?});\n got {:?}\n want {:?}", b, e, r, got.len(), want.len(), secs, got.iter().map(|i| (i.sec, i.f.resource.clone(), i.f.pass_qps)).collect::<Vec<_>>(), want.iter().map(|i| (i.sec, i.f.resource.clone(), i.f.pass_qps)).collect::<Vec<_>>()))), queries);
-                    }
-                } else {
-                    match extras_if_subsequence(&got, &want, written) {
-                        Some(x) if x <= 1 => {}
-                        other => {
-                            return (Err(("crash-prefix-lost-items".into(), format!("crash|{}", key), format!("after the crash find_by_time_and_resource(begin sec {}, end sec {}, {:?}) returned {} items; the {} completely written ones must all be there in order with at most one torn extra ({:?})", b, e, r, got.len(), want.len(), other))), queries);
-                        }
-                    }
-                }
+                list.push(Query::ByTime(*b, e, r, bi));
             }
         }
-        // from a time with a line limit
-        let avail: Vec<Item> = w.iter().filter(|i| i.sec >= *b).cloned().collect();
-        for max_lines in 1..=(2 * avail.len().max(1)).min(max_lines_cap) {
+        let avail = w.iter().filter(|i| i.sec >= *b).count();
+        for max_lines in 1..=(2 * avail.max(1)).min(max_lines_cap) {
+            list.push(Query::MaxLines(*b, max_lines, bi));
+        }
+    }
+    let mut passes: Vec<(&'static str, Vec<Query>)> = vec![("ascending", list.clone())];
+    if reuse {
+        let mut desc = list.clone();
+        desc.reverse();
+        passes.push(("descending", desc));
+        let mut sh = list.clone();
+        let mut x = order_seed.wrapping_mul(0x9E37_79B9_7F4A_7C15) | 1;
+        for i in (1..sh.len()).rev() {
+            x ^= x << 13;
+            x ^= x >> 7;
+            x ^= x << 17;
+            sh.swap(i, (x % (i as u64 + 1)) as usize);
+        }
+        passes.push(("shuffled", sh));
+    }
+    let mut prev_desc = String::from("none");
+    for (pass_name, qs) in passes {
+        for q in qs {
             queries += 1;
             let fresh;
             let s = if reuse { &shared } else { fresh = mk().unwrap(); &fresh };
-            let got = match s.find_from_time_with_max_lines(b * 1000 + 250, max_lines) {
-                Ok(v) => v.iter().map(to_item).collect::<Vec<_>>(),
-                Err(err) => {
-                    if crashed {
-                        continue;
+            let order_note = if reuse { format!(" [reused searcher, {} pass, previous query: {}]", pass_name, prev_desc) } else { String::new() };
+            match q {
+                Query::ByTime(b, e, r, bi) => {
+                    if reuse { prev_desc = format!("by-time({}, {}, {:?})", b, e, r); }
+                    let got = match s.find_by_time_and_resource(b * 1000 + 250, e * 1000 + 750, r) {
+                        Ok(v) => v.iter().map(to_item).collect::<Vec<_>>(),
+                        Err(err) => {
+                            if crashed {
+                                continue; // an error is not a panic; the containment clause is judged on Ok results
+                            }
+                            return (Err(("search-failed".into(), format!("find_by_time|{}", shape), format!("find_by_time_and_resource({}, {}, {:?}) failed: {}{}", b, e, r, err, order_note))), queries);
+                        }
+                    };
+                    let want: Vec<Item> = w.iter().filter(|i| i.sec >= b && i.sec <= e && (r.is_empty() || i.f.resource == r)).cloned().collect();
+                    let begin_class = if bi == 0 { "begin-before-first" } else if bi == 1 { "begin-at-first-second" } else { "begin-at-later-second" };
+                    let key = format!("find_by_time|{}|{}|{}", if reuse { "reused-searcher" } else { "fresh-searcher" }, shape, begin_class);
+                    if !crashed {
+                        if got != want {
+                            return (Err(("by-time-result-wrong".into(), key, format!("find_by_time_and_resource(begin sec {}, end sec {}, {:?}) returned {} items, expected {} (written seconds {:?}){};\n got {:?}\n want {:?}", b, e, r, got.len(), want.len(), secs, order_note, got.iter().map(|i| (i.sec, i.f.resource.clone(), i.f.pass_qps)).collect::<Vec<_>>(), want.iter().map(|i| (i.sec, i.f.resource.clone(), i.f.pass_qps)).collect::<Vec<_>>()))), queries);
+                        }
+                    } else {
+                        match extras_if_subsequence(&got, &want, written) {
+                            Some(x) if x <= 1 => {}
+                            other => {
+                                return (Err(("crash-prefix-lost-items".into(), format!("crash|{}", key), format!("after the crash find_by_time_and_resource(begin sec {}, end sec {}, {:?}) returned {} items; the {} completely written ones must all be there in order with at most one torn extra ({:?})", b, e, r, got.len(), want.len(), other))), queries);
+                            }
+                        }
                     }
-                    return (Err(("search-failed".into(), format!("find_from_time|{}", shape), format!("find_from_time_with_max_lines({}, {}) failed: {}", b, max_lines, err))), queries);
                 }
-            };
-            let begin_class = if bi == 0 { "begin-before-first" } else if bi == 1 { "begin-at-first-second" } else { "begin-at-later-second" };
-            let key = format!("find_from_time|{}|{}|{}", if reuse { "reused-searcher" } else { "fresh-searcher" }, shape, begin_class);
-            let need = max_lines.min(avail.len());
-            if !crashed {
-                // a prefix, in write order, of the available items; at least `need` long; surplus shares the last counted second
-                let is_prefix = got.len() <= avail.len() && got[..] == avail[..got.len()];
-                let long_enough = got.len() >= need;
-                let surplus_ok = got.len() <= need || need == 0 || got[need..].iter().all(|i| i.sec == avail[need - 1].sec);
-                if !(is_prefix && long_enough && surplus_ok) {
-                    return (Err(("max-lines-result-wrong".into(), key, format!("find_from_time_with_max_lines(begin sec {}, {}) returned {} items (prefix {}, long enough {}, surplus ok {}), {} available: got {:?}", b, max_lines, got.len(), is_prefix, long_enough, surplus_ok, avail.len(), got.iter().map(|i| (i.sec, i.f.resource.clone(), i.f.pass_qps)).collect::<Vec<_>>()))), queries);
-                }
-            } else {
-                // the first `need` completely written items must be there, in order, with at most one torn extra before the limit
-                let want = &avail[..need];
-                let ok = extras_if_subsequence(&got, want, written).map(|x| x <= 1).unwrap_or(false);
-                if !ok {
-                    return (Err(("crash-prefix-lost-items".into(), format!("crash|{}", key), format!("after the crash find_from_time_with_max_lines(begin sec {}, {}) returned {} items that do not contain the first {} completely written ones in order", b, max_lines, got.len(), need))), queries);
+                Query::MaxLines(b, max_lines, bi) => {
+                    if reuse { prev_desc = format!("max-lines({}, {})", b, max_lines); }
+                    let avail: Vec<Item> = w.iter().filter(|i| i.sec >= b).cloned().collect();
+                    let got = match s.find_from_time_with_max_lines(b * 1000 + 250, max_lines) {
+                        Ok(v) => v.iter().map(to_item).collect::<Vec<_>>(),
+                        Err(err) => {
+                            if crashed {
+                                continue;
+                            }
+                            return (Err(("search-failed".into(), format!("find_from_time|{}", shape), format!("find_from_time_with_max_lines({}, {}) failed: {}{}", b, max_lines, err, order_note))), queries);
+                        }
+                    };
+                    let begin_class = if bi == 0 { "begin-before-first" } else if bi == 1 { "begin-at-first-second" } else { "begin-at-later-second" };
+                    let key = format!("find_from_time|{}|{}|{}", if reuse { "reused-searcher" } else { "fresh-searcher" }, shape, begin_class);
+                    let need = max_lines.min(avail.len());
+                    if !crashed {
+                        // a prefix, in write order, of the available items; at least `need` long; surplus shares the last counted second
+                        let is_prefix = got.len() <= avail.len() && got[..] == avail[..got.len()];
+                        let long_enough = got.len() >= need;
+                        let surplus_ok = got.len() <= need || need == 0 || got[need..].iter().all(|i| i.sec == avail[need - 1].sec);
+                        if !(is_prefix && long_enough && surplus_ok) {
+                            return (Err(("max-lines-result-wrong".into(), key, format!("find_from_time_with_max_lines(begin sec {}, {}) returned {} items (prefix {}, long enough {}, surplus ok {}), {} available{}: got {:?}", b, max_lines, got.len(), is_prefix, long_enough, surplus_ok, avail.len(), order_note, got.iter().map(|i| (i.sec, i.f.resource.clone(), i.f.pass_qps)).collect::<Vec<_>>()))), queries);
+                        }
+                    } else {
+                        // the first `need` completely written items must be there, in order, with at most one torn extra before the limit
+                        let want = &avail[..need];
+                        let ok = extras_if_subsequence(&got, want, written).map(|x| x <= 1).unwrap_or(false);
+                        if !ok {
+                            return (Err(("crash-prefix-lost-items".into(), format!("crash|{}", key), format!("after the crash find_from_time_with_max_lines(begin sec {}, {}) returned {} items that do not contain the first {} completely written ones in order", b, max_lines, got.len(), need))), queries);
+                        }
+                    }
                 }
             }
         }
@@ -349,7 +388,7 @@ impl Property for C19 {
         vec![("search_files", 600_000, 600)]
     }
     fn rule(&self) -> String {
-        "bytes -> write history (writer created on an ordinary day or 3 s before UTC midnight, 1-8 written seconds with gaps 1..7 s / 61 s / a day, 1-4 items per second over 3 resources incl. one whose name contains the separator, single_file_max_size in {1,120,250,400,100000}, max_file_count 1..4), fresh searcher per query or one reused; queries are enumerated exhaustively per history: every (begin, end, resource | \"\") over the written seconds (plus begin one second earlier, end beyond the last) and every (begin, max_lines 1..2*items); crash points = prefixes of the journalled byte stream the writer issued (file creations/removals, index-entry bytes, line bytes in program order): every operation boundary, every interior byte of every index entry and sampled (quick: 24 per history, thorough: all) interior line bytes; oracle: physical placement and retention from the journal, semantics from the statement; non-trivial = history spans >= 2 files and (crash mode) some cut falls inside an index entry or a line; distinct = distinct decoded histories".into()
+        "bytes -> write history (writer created on an ordinary day or 3 s before UTC midnight, 1-8 written seconds with gaps 1..7 s / 61 s / a day, 1-4 items per second over 3 resources incl. one whose name contains the separator, single_file_max_size in {1,120,250,400,100000}, max_file_count 1..4), fresh searcher per query or one reused (then the whole query list is asked three times: begins ascending, descending and in a generated shuffled order, since what a reused searcher caches depends on the order); queries are enumerated exhaustively per history: every (begin, end, resource | \"\") over the written seconds (plus begin one second earlier, end beyond the last) and every (begin, max_lines 1..2*items); crash points = prefixes of the journalled byte stream the writer issued (file creations/removals, index-entry bytes, line bytes in program order): every operation boundary, every interior byte of every index entry and sampled (quick: 24 per history, thorough: all) interior line bytes; oracle: physical placement and retention from the journal, semantics from the statement; non-trivial = history spans >= 2 files and (crash mode) some cut falls inside an index entry or a line; distinct = distinct decoded histories".into()
     }
     fn assumptions(&self) -> Vec<String> {
         vec![
@@ -391,7 +430,7 @@ impl Property for C19 {
         }
         let mut total_queries = 0u64;
         let lines_cap = if cfg.tier == Tier::Quick { 12 } else { 40 };
-        let (r, q) = judge_dir(&dir, &survivors, &survivors, false, case.reuse_searcher, files_with_data.len(), lines_cap);
+        let (r, q) = judge_dir(&dir, &survivors, &survivors, false, case.reuse_searcher, files_with_data.len(), lines_cap, case.order_seed);
         total_queries += q;
         let _ = std::fs::remove_dir_all(&dir);
         if let Err((clause, key, detail)) = r {
@@ -400,7 +439,7 @@ impl Property for C19 {
         }
         // the writer's own directory must agree with the journal replay
         {
-            let (r2, q2) = judge_dir(&h.dir, &survivors, &survivors, false, false, files_with_data.len(), 3);
+            let (r2, q2) = judge_dir(&h.dir, &survivors, &survivors, false, false, files_with_data.len(), 3, 0);
             total_queries += q2;
             if let Err((clause, key, detail)) = r2 {
                 let _ = std::fs::remove_dir_all(&h.dir);
@@ -441,7 +480,7 @@ impl Property for C19 {
                 if bytes > 0 {
                     torn_cuts += 1;
                 }
-                let (r, q) = judge_dir(&d, &w, &written, true, false, 2, 6);
+                let (r, q) = judge_dir(&d, &w, &written, true, false, 2, 6, 0);
                 total_queries += q;
                 let _ = std::fs::remove_dir_all(&d);
                 if let Err((clause, key, detail)) = r {
